@@ -159,6 +159,8 @@ def mir_facts(tier):
     """Build (or fetch from cache) the MIR fact files of the corpus. Returns
     (crates dict, {crate_name: facts_path}, info)."""
     crates = corpus.build(tier, int(os.environ.get('VERIF_SEED', '0')) if tier == 'thorough' else 0)
+    for c in crates.values():
+        corpus.crate_source(c)   # fills line numbers / closure positions of every declaration
     cd = cache_dir(tier)
     with Lock(os.path.join(cd, '.lock')):
         marker = os.path.join(cd, 'mir.ok')
